@@ -129,6 +129,211 @@ def _module_assign(tree: ast.Module, name: str) -> ast.AST:
     raise TranslateError(f'module constant {name} not found')
 
 
+# ------------------------------------------------------------------------------------------ normalisation
+_PURE_FUNCS = {'len', 'abs', 'min', 'max', 'int', 'bool', 'str'}
+_PURE_METHODS = {'rstrip', 'lstrip', 'strip', 'rfind', 'find', 'count', 'startswith', 'endswith', 'casefold', 'lower', 'upper'}
+
+
+def _is_pure(e: ast.AST | None) -> bool:
+    """Expressions without side effects whose value depends only on the values of the names in them (strings and integers)."""
+    if e is None:
+        return True
+    if isinstance(e, (ast.Name, ast.Constant)):
+        return True
+    if isinstance(e, ast.Subscript):
+        return _is_pure(e.value) and _is_pure(e.slice)
+    if isinstance(e, ast.Slice):
+        return _is_pure(e.lower) and _is_pure(e.upper) and _is_pure(e.step)
+    if isinstance(e, ast.BinOp):
+        return _is_pure(e.left) and _is_pure(e.right)
+    if isinstance(e, ast.UnaryOp):
+        return _is_pure(e.operand)
+    if isinstance(e, ast.Compare):
+        return _is_pure(e.left) and all(_is_pure(c) for c in e.comparators)
+    if isinstance(e, (ast.BoolOp, ast.Tuple)):
+        return all(_is_pure(v) for v in (e.values if isinstance(e, ast.BoolOp) else e.elts))
+    if isinstance(e, ast.Call) and not e.keywords:
+        if isinstance(e.func, ast.Name) and e.func.id in _PURE_FUNCS:
+            return all(_is_pure(a) for a in e.args)
+        if isinstance(e.func, ast.Attribute) and e.func.attr in _PURE_METHODS:
+            return _is_pure(e.func.value) and all(_is_pure(a) for a in e.args)
+    return False
+
+
+_STABLE_METHODS = {'casefold', 'lower', 'upper', 'strip', 'lstrip', 'rstrip', 'title'}
+
+
+def _is_stable(e: ast.AST, attr_stores: set[str]) -> bool:
+    """Expressions whose evaluation has no effect and cannot fail, and whose value stays the same for as long as the names in them are
+    not re-bound: names, literals, loads of attributes that are not assigned in the region looked at (assumption: attribute loads are
+    plain field reads and callees do not re-assign the fields of their arguments), str methods without effects on such values,
+    comparisons and boolean combinations of them."""
+    if isinstance(e, (ast.Name, ast.Constant)):
+        return True
+    if isinstance(e, ast.Attribute):
+        return e.attr not in attr_stores and _is_stable(e.value, attr_stores)
+    if isinstance(e, ast.Call) and not e.keywords and isinstance(e.func, ast.Attribute) and e.func.attr in _STABLE_METHODS:
+        return _is_stable(e.func.value, attr_stores) and all(_is_stable(x, attr_stores) for x in e.args)
+    if isinstance(e, ast.Compare):
+        return (all(isinstance(o, (ast.Eq, ast.NotEq, ast.Is, ast.IsNot)) for o in e.ops) and _is_stable(e.left, attr_stores)
+                and all(_is_stable(c, attr_stores) for c in e.comparators))
+    if isinstance(e, ast.BoolOp):
+        return all(_is_stable(v, attr_stores) for v in e.values)
+    if isinstance(e, ast.Tuple):
+        return all(_is_stable(v, attr_stores) for v in e.elts)
+    if isinstance(e, ast.UnaryOp) and isinstance(e.op, ast.Not):
+        return _is_stable(e.operand, attr_stores)
+    return False
+
+
+def _attr_stores(nodes: list[ast.stmt]) -> set[str]:
+    return {n.attr for x in nodes for n in ast.walk(x) if isinstance(n, ast.Attribute) and isinstance(n.ctx, (ast.Store, ast.Del))}
+
+
+def _stores(node: ast.AST) -> set[str]:
+    return {n.id for n in ast.walk(node) if isinstance(n, ast.Name) and isinstance(n.ctx, (ast.Store, ast.Del))}
+
+
+def _loads(node: ast.AST, name: str) -> int:
+    return sum(1 for n in ast.walk(node) if isinstance(n, ast.Name) and isinstance(n.ctx, ast.Load) and n.id == name)
+
+
+def _subst(node: ast.AST, name: str, value: ast.AST) -> ast.AST:
+    import copy
+
+    class R(ast.NodeTransformer):
+        def visit_Name(self, n: ast.Name) -> ast.AST:   # noqa: N802
+            return copy.deepcopy(value) if isinstance(n.ctx, ast.Load) and n.id == name else n
+    return R().visit(node)
+
+
+def _module_literals(tree: ast.Module) -> dict[str, ast.Constant]:
+    """Module-level names bound exactly once in the whole module, to an int/str literal (`LIMIT = 1000`, `LIMIT: Final = 1000`)."""
+    count: dict[str, int] = {}
+    for n in ast.walk(tree):
+        if isinstance(n, ast.Name) and isinstance(n.ctx, (ast.Store, ast.Del)):
+            count[n.id] = count.get(n.id, 0) + 1
+        elif isinstance(n, (ast.Global, ast.Nonlocal)):
+            for nm in n.names:
+                count[nm] = count.get(nm, 0) + 2
+        elif isinstance(n, ast.arg):
+            count[n.arg] = count.get(n.arg, 0) + 2        # shadowed somewhere: do not touch
+    out = {}
+    for st in tree.body:
+        tgt, val = None, None
+        if isinstance(st, ast.Assign) and len(st.targets) == 1 and isinstance(st.targets[0], ast.Name):
+            tgt, val = st.targets[0].id, st.value
+        elif isinstance(st, ast.AnnAssign) and isinstance(st.target, ast.Name) and st.value is not None:
+            tgt, val = st.target.id, st.value
+        if tgt and count.get(tgt) == 1 and isinstance(val, ast.Constant) and isinstance(val.value, (int, str)) and not isinstance(val.value, bool):
+            out[tgt] = val
+    return out
+
+
+def _branch_normal_form(stmts: list[ast.stmt]) -> list[ast.stmt]:
+    """`if c: ...; return/raise/continue/break` followed by more statements = `if c: ... else: <the rest>`; `if not c: A else: B` =
+    `if c: B else: A`.  Applied bottom-up to a statement list (returns a new list; the statements are modified in place)."""
+    out: list[ast.stmt] = []
+    for k, st in enumerate(stmts):
+        for fld in ('body', 'orelse', 'finalbody'):
+            sub = getattr(st, fld, None)
+            if isinstance(sub, list) and sub and isinstance(sub[0], ast.stmt):
+                setattr(st, fld, _branch_normal_form(sub))
+        if (isinstance(st, ast.If) and not st.orelse and st.body and isinstance(st.body[-1], (ast.Return, ast.Raise, ast.Continue, ast.Break))
+                and stmts[k + 1:]):
+            st.orelse = _branch_normal_form(stmts[k + 1:])
+            stmts = stmts[:k + 1]
+        if isinstance(st, ast.If) and st.orelse and isinstance(st.test, ast.UnaryOp) and isinstance(st.test.op, ast.Not):
+            st.test, st.body, st.orelse = st.test.operand, st.orelse, st.body
+        out.append(st)
+        if len(stmts) == k + 1:
+            break
+    return out
+
+
+def _normalise(fn: ast.FunctionDef, tree: ast.Module, branches: bool = False) -> ast.FunctionDef:
+    """An equivalent function in which
+      * module-level literal constants and function-level literal constants (`LIMIT = 1000` as a top-level statement of the body, bound
+        once) are replaced by their values,
+      * locals that are bound once to a stable expression (see _is_stable: names, literals, attribute loads, str methods, == / is tests)
+        and used only later in the same block, where none of the names in the expression is re-bound and none of the attributes in it
+        is assigned, are replaced by that expression (`key = classname.casefold()`, `ents = fgd.entities`, `defined = self.x != ()`),
+      * locals that are bound once to a pure expression and used only in the statements right after the binding (nothing in between
+        but other such bindings; the names in the expression not re-bound before the last use, except inside the body of an `if` whose
+        test holds the last use) are replaced by that expression.
+    Renaming, hoisting a constant and naming a sub-expression therefore all lead to the same tree."""
+    import copy
+    fn = copy.deepcopy(fn)
+    params = {a.arg for a in ast.walk(fn.args) if isinstance(a, ast.arg)}
+    nstores: dict[str, int] = {}
+    for n in ast.walk(fn):
+        if isinstance(n, ast.Name) and isinstance(n.ctx, (ast.Store, ast.Del)):
+            nstores[n.id] = nstores.get(n.id, 0) + 1
+    local = set(nstores) | params
+    for nm, val in _module_literals(tree).items():
+        if nm not in local:
+            _subst(fn, nm, val)
+    # function-level literal constants
+    for st in list(fn.body):
+        if (isinstance(st, ast.Assign) and len(st.targets) == 1 and isinstance(st.targets[0], ast.Name) and isinstance(st.value, ast.Constant)
+                and isinstance(st.value.value, (int, str)) and nstores.get(st.targets[0].id) == 1 and st.targets[0].id not in params):
+            nm = st.targets[0].id
+            before = fn.body[:fn.body.index(st)]
+            if any(_loads(x, nm) for x in before):
+                continue
+            fn.body.remove(st)
+            _subst(fn, nm, st.value)
+
+    def block(stmts: list[ast.stmt]) -> bool:
+        for i, st in enumerate(stmts):
+            if isinstance(st, ast.AnnAssign) and isinstance(st.target, ast.Name) and st.value is not None and st.simple:
+                st = ast.copy_location(ast.Assign(targets=[st.target], value=st.value), st)
+            if not (isinstance(st, ast.Assign) and len(st.targets) == 1 and isinstance(st.targets[0], ast.Name)):
+                continue
+            v = st.targets[0].id
+            if nstores.get(v) != 1 or v in params:
+                continue
+            free = {n.id for n in ast.walk(st.value) if isinstance(n, ast.Name)} | {v}
+            total = _loads(fn, v)
+            after = stmts[i + 1:]
+            if total == 0 or sum(_loads(x, v) for x in after) != total:
+                continue
+            # a stable value may be used anywhere later in the same block, as long as the names in it are not re-bound there
+            if _is_stable(st.value, _attr_stores(after)) and not any(_stores(x) & free for x in after):
+                del stmts[i]
+                for x in after:
+                    _subst(x, v, st.value)
+                return True
+            if not _is_pure(st.value):
+                continue
+            j = max(k for k, x in enumerate(after) if _loads(x, v))
+            between, last = after[:j], after[j]
+            if not all(isinstance(x, ast.Assign) and len(x.targets) == 1 and isinstance(x.targets[0], ast.Name) and _is_pure(x.value)
+                       and not (_stores(x) & free) for x in between):
+                continue
+            if _stores(last) & free:
+                if not (isinstance(last, ast.If) and _loads(last.test, v) == _loads(last, v) and not _stores(last.test)):
+                    continue
+            del stmts[i]
+            for x in stmts[i:i + j + 1]:
+                _subst(x, v, st.value)
+            return True
+        for st in stmts:
+            for fld in ('body', 'orelse', 'finalbody'):
+                sub = getattr(st, fld, None)
+                if isinstance(sub, list) and sub and isinstance(sub[0], ast.stmt) and block(sub):
+                    return True
+        return False
+    for _ in range(200):
+        if not block(fn.body):
+            break
+    if branches:
+        doc = fn.body[:1] if (fn.body and isinstance(fn.body[0], ast.Expr) and isinstance(fn.body[0].value, ast.Constant)
+                              and isinstance(fn.body[0].value.value, str)) else []
+        fn.body = doc + _branch_normal_form(fn.body[len(doc):])
+    return ast.fix_missing_locations(fn)
+
+
 # ------------------------------------------------------------------------------------------ tokenizer
 def _tokenizer_tables() -> tuple[list[tuple[int, int]], list[int], dict]:
     tree = ast.parse(src_text('tokenizer.py'))
@@ -221,19 +426,21 @@ def _slice_emit(sts: list[ast.stmt], secs: str, rem: str, pos: str, where: str) 
         raise TranslateError(f'{where}: remaining text is advanced by {ast.unparse(sts[1])}')
 
 
+def _int_lit(node: ast.AST, what: str) -> int:
+    return _int_expr(node, what)
+
+
 def _write_longstring(tree: ast.Module) -> dict:
-    fn = _fn(tree, '_write_longstring')
-    args = [a.arg for a in fn.args.args] + [a.arg for a in fn.args.kwonlyargs]
+    raw = _fn(tree, '_write_longstring')
+    args = [a.arg for a in raw.args.args] + [a.arg for a in raw.args.kwonlyargs]
     if args != ['file', 'extended', 'text', 'indent']:
         raise TranslateError(f'_write_longstring signature changed: {args}')
+    fn = _normalise(raw, tree)          # LIMIT (local or module constant) is now a literal, named sub-expressions are inlined
     b = _body(fn)
-    if len(b) != 6:
-        raise TranslateError(f'_write_longstring: expected 6 top-level statements, found {len(b)}')
-    s_limit, s_secs, s_rem, s_while, s_last, s_write = b
-    # LIMIT = 1000
-    if not (isinstance(s_limit, ast.Assign) and isinstance(s_limit.targets[0], ast.Name)):
-        raise TranslateError('LIMIT assignment not recognised')
-    limit_name, limit = s_limit.targets[0].id, _const(s_limit.value, int, 'LIMIT')
+    if len(b) != 5:
+        raise TranslateError(f'_write_longstring: expected 5 top-level statements after normalisation, found {len(b)}: '
+                             + ' | '.join(ast.unparse(x)[:40] for x in b))
+    s_secs, s_rem, s_while, s_last, s_write = b
     # sections = []
     if not (isinstance(s_secs, ast.Assign) and isinstance(s_secs.targets[0], ast.Name) and _is(s_secs.value, '[]')):
         raise TranslateError('sections initialisation not recognised')
@@ -245,22 +452,40 @@ def _write_longstring(tree: ast.Module) -> dict:
     rem = s_rem.targets[0].id
     # while len(remaining) > LIMIT:
     if not (isinstance(s_while, ast.While) and not s_while.orelse and isinstance(s_while.test, ast.Compare)
-            and len(s_while.test.ops) == 1 and _is(s_while.test.left, f'len({rem})')
-            and _is(s_while.test.comparators[0], limit_name)):
+            and len(s_while.test.ops) == 1 and _is(s_while.test.left, f'len({rem})')):
         raise TranslateError('while len(remaining) <op> LIMIT not recognised')
+    limit = _int_lit(s_while.test.comparators[0], 'LIMIT in the loop test')
     loop_op = type(s_while.test.ops[0]).__name__
     wb = s_while.body
     if len(wb) != 6:
         raise TranslateError(f'_write_longstring loop: expected 6 statements, found {len(wb)}')
-    pos1, needle1, off1 = _rfind_assign(wb[0], rem, limit_name)
+
+    def rfind_assign(st: ast.stmt) -> tuple[str, str, int]:
+        """`pos = rem.rfind(NEEDLE, 0, LIMIT) + K` -> (pos, NEEDLE, K)"""
+        if not (isinstance(st, ast.Assign) and len(st.targets) == 1 and isinstance(st.targets[0], ast.Name)
+                and isinstance(st.value, ast.BinOp) and isinstance(st.value.op, ast.Add)):
+            raise TranslateError(f'_write_longstring: expected `pos = x.rfind(..) + k` at line {st.lineno}')
+        call, k = st.value.left, _int_lit(st.value.right, 'rfind offset')
+        if isinstance(call, ast.Constant):          # k + x.rfind(..)
+            call, k = st.value.right, _int_lit(st.value.left, 'rfind offset')
+        if not (_is_call_method(call, 'rfind') and isinstance(call.func.value, ast.Name) and call.func.value.id == rem  # type: ignore[attr-defined]
+                and len(call.args) == 3 and not call.keywords):  # type: ignore[attr-defined]
+            raise TranslateError(f'_write_longstring: rfind call not recognised at line {st.lineno}')
+        needle = _const(call.args[0], str, 'rfind needle')  # type: ignore[attr-defined]
+        if _int_lit(call.args[1], 'rfind start') != 0:  # type: ignore[attr-defined]
+            raise TranslateError('rfind start is not 0')
+        if _int_lit(call.args[2], 'rfind end') != limit:  # type: ignore[attr-defined]
+            raise TranslateError('rfind end is not LIMIT')
+        return st.targets[0].id, needle, k
+    pos1, needle1, off1 = rfind_assign(wb[0])
     # if split_pos > 128: emit; continue
     if1 = wb[1]
     if not (isinstance(if1, ast.If) and not if1.orelse and isinstance(if1.test, ast.Compare) and len(if1.test.ops) == 1
             and _is(if1.test.left, pos1) and len(if1.body) == 3 and isinstance(if1.body[2], ast.Continue)):
         raise TranslateError('newline-split branch not recognised')
-    nl_op, min_nl = type(if1.test.ops[0]).__name__, _const(if1.test.comparators[0], int, 'newline threshold')
+    nl_op, min_nl = type(if1.test.ops[0]).__name__, _int_lit(if1.test.comparators[0], 'newline threshold')
     _slice_emit(if1.body[:2], secs, rem, pos1, 'newline-split branch')
-    pos2, needle2, off2 = _rfind_assign(wb[2], rem, limit_name)
+    pos2, needle2, off2 = rfind_assign(wb[2])
     if pos2 != pos1:
         raise TranslateError('second rfind assigns a different variable')
     # if split_pos == (-1 + 1): split_pos = LIMIT [guard]
@@ -268,19 +493,20 @@ def _write_longstring(tree: ast.Module) -> dict:
     if not (isinstance(if2, ast.If) and not if2.orelse and isinstance(if2.test, ast.Compare) and len(if2.test.ops) == 1
             and isinstance(if2.test.ops[0], ast.Eq) and _is(if2.test.left, pos1)):
         raise TranslateError('not-found test of the space split not recognised')
-    notfound = _int_expr(if2.test.comparators[0], 'not-found value')
-    if not if2.body or not _is(if2.body[0], f'{pos1} = {limit_name}'):
+    notfound = _int_lit(if2.test.comparators[0], 'not-found value')
+    if not (if2.body and isinstance(if2.body[0], ast.Assign) and isinstance(if2.body[0].targets[0], ast.Name) and if2.body[0].targets[0].id == pos1
+            and isinstance(if2.body[0].value, (ast.Constant, ast.BinOp, ast.UnaryOp)) and _int_lit(if2.body[0].value, 'hard cut position') == limit):
         raise TranslateError('hard cut does not start with split_pos = LIMIT')
     guard_src = [ast.unparse(s) for s in if2.body[1:]]
     if not guard_src:
         cut_guard = False
-    elif len(if2.body) == 3 and isinstance(if2.body[1], ast.Assign) and isinstance(if2.body[1].targets[0], ast.Name):
-        cnt = if2.body[1].targets[0].id
+    elif len(if2.body) == 2 and isinstance(if2.body[1], ast.If) and not if2.body[1].orelse:
+        g = if2.body[1]
         head = f'{rem}[:{pos1}]'
-        ok_count = _is(if2.body[1].value, f"len({head}) - len({head}.rstrip('\\\\'))")
-        ok_step = any(_is(if2.body[2], x) for x in (f'if {cnt} % 2 == 1:\n    {pos1} -= 1', f'if {cnt} % 2:\n    {pos1} -= 1',
-                                                    f'if {cnt} % 2 != 0:\n    {pos1} -= 1'))
-        if not (ok_count and ok_step):
+        cnt = f"(len({head}) - len({head}.rstrip('\\\\')))"
+        ok_test = any(_is(g.test, x) for x in (f'{cnt} % 2 == 1', f'{cnt} % 2', f'{cnt} % 2 != 0', f'1 == {cnt} % 2', f'{cnt} & 1', f'{cnt} & 1 == 1'))
+        ok_step = len(g.body) == 1 and any(_is(g.body[0], x) for x in (f'{pos1} -= 1', f'{pos1} = {pos1} - 1'))
+        if not (ok_test and ok_step):
             raise TranslateError('hard-cut guard not recognised: ' + ' ; '.join(guard_src))
         cut_guard = True
     else:
@@ -311,20 +537,20 @@ def _write_longstring(tree: ast.Module) -> dict:
     joiner = _const(sep.left, str, 'joiner')
     return dict(limit=limit, loop_op=loop_op, needle1=needle1, off1=off1, nl_op=nl_op, min_nl=min_nl, needle2=needle2,
                 off2=off2, notfound=notfound, cut_guard=cut_guard, empty_quotes=empty_quotes, joiner=joiner,
-                digest=ast_digest(fn), line=fn.lineno)
+                digest=ast_digest(raw), line=raw.lineno)
 
 
 def _fgd_escape(tree: ast.Module) -> dict:
-    fn = _fn(tree, '_fgd_escape')
+    fn = _normalise(_fn(tree, '_fgd_escape'), tree, branches=True)      # early return = if/else, `if not c` swapped
     b = _body(fn)
-    if [a.arg for a in fn.args.args] != ['extended', 'text'] or len(b) != 2:
+    if [a.arg for a in fn.args.args] != ['extended', 'text'] or len(b) != 1 or not isinstance(b[0], ast.If):
         raise TranslateError('_fgd_escape shape changed')
-    if not _is(b[0], 'if extended:\n    return escape_text(text)'):
-        raise TranslateError('_fgd_escape extended branch: ' + ast.unparse(b[0]))
-    if not isinstance(b[1], ast.Return):
+    if not (_is(b[0].test, 'extended') and len(b[0].body) == 1 and _is(b[0].body[0], 'return escape_text(text)')):
+        raise TranslateError('_fgd_escape extended branch: ' + ast.unparse(b[0])[:120])
+    if not (len(b[0].orelse) == 1 and isinstance(b[0].orelse[0], ast.Return) and b[0].orelse[0].value is not None):
         raise TranslateError('_fgd_escape plain branch is not a return')
     repl = []
-    node = b[1].value
+    node = b[0].orelse[0].value
     while _is_call_method(node, 'replace'):
         a0, a1 = node.args  # type: ignore[union-attr]
         repl.append((_const(a0, str, 'replace from'), _const(a1, str, 'replace to')))
@@ -381,7 +607,8 @@ def _engine_db() -> dict:
     # BinStrDict.__call__: base_dict index raw, own index + SHARED_STRINGS
     bsd = _cls(tree, 'BinStrDict')
     call = [n for n in bsd.body if isinstance(n, ast.FunctionDef) and n.name == '__call__']
-    if not call or not _is(_body(call[0])[0], 'if string in self.base_dict:\n    return _fmt_16bit.pack(self.base_dict[string])\n'
+    import copy
+    if not call or not _is(_branch_normal_form(_body(copy.deepcopy(call[0])))[0], 'if string in self.base_dict:\n    return _fmt_16bit.pack(self.base_dict[string])\n'
                                               'else:\n    return _fmt_16bit.pack(SHARED_STRINGS + self._dict[string])'):
         raise TranslateError('BinStrDict.__call__ not recognised')
     uns = [n for n in bsd.body if isinstance(n, ast.FunctionDef) and n.name == 'unserialise']
@@ -394,7 +621,7 @@ def _engine_db() -> dict:
             for f in n.body:
                 if isinstance(f, ast.FunctionDef) and f.name in ('get_ent', '_parse_block', 'get_fgd'):
                     digests[f.name] = ast_digest(f)
-                    edb[f.name] = f
+                    edb[f.name] = _normalise(f, tree)
     if set(digests) != {'get_ent', '_parse_block', 'get_fgd'}:
         raise TranslateError('EngineDB.get_ent/_parse_block/get_fgd not found')
     lazy = _lazy_db(edb)
@@ -495,12 +722,127 @@ def _only_colons(lit: ast.AST, what: str) -> int:
     return v.count(':')
 
 
+def _kv_default_desc_paths(fn: ast.FunctionDef, body: list[ast.stmt], dvar: str) -> tuple[int, int]:
+    """What KVDef.export writes between the display name and the value list, read off EVERY PATH through that part of the function
+    instead of one spelling of its `if`s: the part starts after the last binding of the local that holds the default and ends before
+    the first statement that contains a loop.  A path is a choice for every test (`not` stripped; conditional expressions that are the
+    argument of a write are branches too); the truth of `default` (D) and of `self.desc` (S) is tracked, the same test gets the same
+    answer along a path.  Required on all paths:
+        D false, S false : nothing is written;          D false, S true : separators made of colons and blanks, then the description;
+        D true,  S false : the default (any write that is not a bare separator), nothing after it;
+        D true,  S true  : the default, separators, the description.
+    Returns the number of colons in the separators (after a default, without a default); everything else fails closed."""
+    file = fn.args.args[1].arg
+    last_store = max((i for i, st in enumerate(body) if dvar in _stores(st)), default=None)
+    if last_store is None:
+        raise TranslateError('KVDef.export: the local holding the default is never bound')
+    end = next((i for i, st in enumerate(body) if i > last_store and any(isinstance(n, (ast.For, ast.While)) for n in ast.walk(st))), len(body))
+    region = body[last_store + 1:end]
+    if end == len(body) and region:
+        region = region[:-1]            # the final newline write
+    rebound = set().union(*[_stores(st) for st in region]) if region else set()
+    Event = tuple   # ('w', expr) | ('ls', text expr) | ('stop',)
+
+    def atom(test: ast.AST) -> tuple[str, bool]:
+        pol = True
+        while isinstance(test, ast.UnaryOp) and isinstance(test.op, ast.Not):
+            pol, test = not pol, test.operand
+        if isinstance(test, ast.Call) and _is(test.func, 'bool') and len(test.args) == 1 and not test.keywords:
+            test = test.args[0]
+        return ast.unparse(test), pol
+
+    def choose(test: ast.AST, env: dict[str, bool]) -> list[tuple[bool, dict[str, bool]]]:
+        key, pol = atom(test)
+        names = {n.id for n in ast.walk(test) if isinstance(n, ast.Name)}
+        if key in env:
+            return [(env[key] == pol, env)]
+        if names & rebound:             # may change between two evaluations: not remembered
+            return [(True, env), (False, env)]
+        return [(pol, {**env, key: True}), (not pol, {**env, key: False})]
+
+    def expr_paths(e: ast.AST, env: dict[str, bool]) -> list[tuple[ast.AST, dict[str, bool]]]:
+        if isinstance(e, ast.IfExp):
+            out = []
+            for val, env2 in choose(e.test, env):
+                out += expr_paths(e.body if val else e.orelse, env2)
+            return out
+        return [(e, env)]
+
+    def run(sts: list[ast.stmt], env: dict[str, bool], evs: list[Event]) -> list[tuple[dict[str, bool], list[Event]]]:
+        if not sts:
+            return [(env, evs)]
+        st, rest = sts[0], sts[1:]
+        if isinstance(st, ast.If):
+            out = []
+            for val, env2 in choose(st.test, env):
+                for env3, evs3 in run(list(st.body if val else st.orelse), env2, evs):
+                    if evs3 and evs3[-1] == ('stop',):
+                        out.append((env3, evs3))
+                    else:
+                        out += run(rest, env3, evs3)
+            return out
+        if isinstance(st, (ast.Return, ast.Raise)):
+            return [(env, evs + [('stop',)])]
+        uses = any(isinstance(n, ast.Name) and n.id == file for n in ast.walk(st))
+        if isinstance(st, ast.Expr) and isinstance(st.value, ast.Call) and uses:
+            c = st.value
+            if _is_call_method(c, 'write') and _is(c.func.value, file) and len(c.args) == 1 and not c.keywords:  # type: ignore[attr-defined]
+                out = []
+                for e, env2 in expr_paths(c.args[0], env):
+                    out += run(rest, env2, evs + [('w', e)])
+                return out
+            if _is(c.func, '_write_longstring') and len(c.args) == 3 and _is(c.args[0], file):
+                return run(rest, env, evs + [('ls', c.args[2])])
+        if uses or isinstance(st, (ast.For, ast.While, ast.Try, ast.With, ast.Match, ast.FunctionDef)):
+            raise TranslateError(f'KVDef.export: statement between default and value list not recognised: {ast.unparse(st)[:80]}')
+        return run(rest, env, evs)
+
+    def is_sep(e: ast.AST) -> bool:
+        return isinstance(e, ast.Constant) and isinstance(e.value, str) and e.value.strip(' :') == '' and ':' in e.value
+
+    with_d: set[int] = set()
+    without_d: set[int] = set()
+    paths = run(region, {}, [])
+    if len(paths) > 4096:
+        raise TranslateError('KVDef.export: too many paths between default and value list')
+    for env, evs in paths:
+        d, sd = env.get(dvar), env.get('self.desc')
+        evs = [e for e in evs if e != ('stop',)]
+        descs = [i for i, e in enumerate(evs) if e[0] == 'ls']
+        if any(not _is(evs[i][1], 'self.desc') for i in descs):
+            raise TranslateError('KVDef.export: a long string other than the description is written after the default')
+        where = f'(default {"present" if d else "absent" if d is not None else "not tested"}, description ' \
+                f'{"present" if sd else "absent" if sd is not None else "not tested"})'
+        if d is None and evs:
+            raise TranslateError(f'KVDef.export: something is written without a test of the default {where}')
+        if (len(descs) == 1) != bool(sd) or len(descs) > 1:
+            raise TranslateError(f'KVDef.export: the description is not written exactly when it is non-empty {where}')
+        if descs and descs[0] != len(evs) - 1:
+            raise TranslateError(f'KVDef.export: something is written after the description {where}')
+        head = evs[:-1] if descs else evs
+        k = len(head)
+        while k > 0 and is_sep(head[k - 1][1]):
+            k -= 1
+        dflt, seps = head[:k], head[k:]
+        if any(is_sep(e[1]) for e in dflt):
+            raise TranslateError(f'KVDef.export: separator before the default {where}')
+        if bool(dflt) != bool(d):
+            raise TranslateError(f'KVDef.export: the default is not written exactly when it is non-empty {where}')
+        if seps and not descs:
+            raise TranslateError(f'KVDef.export: a separator is written without a description {where}')
+        if descs:
+            (with_d if d else without_d).add(sum(e[1].value.count(':') for e in seps))
+    if len(with_d) != 1 or len(without_d) != 1:
+        raise TranslateError(f'KVDef.export: the separators before the description differ between paths: {sorted(with_d)} / {sorted(without_d)}')
+    return with_d.pop(), without_d.pop()
+
+
 def _text_writers(tree: ast.Module) -> dict:
     """Decisive branches of KVDef.export / EntityDef.export (the model is Fmt/FgdLine.v [line_cfg]) and the write
     skeletons of KVDef.export, IODef.export and EntityDef.export."""
-    kve = _method(tree, 'KVDef', 'export')
-    ioe = _method(tree, 'IODef', 'export')
-    ente = _method(tree, 'EntityDef', 'export')
+    kve = _normalise(_method(tree, 'KVDef', 'export'), tree)
+    ioe = _normalise(_method(tree, 'IODef', 'export'), tree)
+    ente = _normalise(_method(tree, 'EntityDef', 'export'), tree)
     body = _body(kve)
     # `default = self.default` ... `if not default and self.type is ValueTypes.BOOL: default = '0'` ... `if default: ... else: ...`
     dvar = None
@@ -520,24 +862,7 @@ def _text_writers(tree: ast.Module) -> dict:
         bool_fill = True
     else:
         raise TranslateError('KVDef.export: the BOOL default fill is not recognised: ' + ' ; '.join(ast.unparse(f)[:80] for f in fills))
-    branch = [st for st in body if isinstance(st, ast.If) and _is(st.test, dvar)]
-    if len(branch) != 1 or not branch[0].orelse:
-        raise TranslateError('KVDef.export: `if default: ... else: ...` not found')
-
-    def desc_sep(sts: list[ast.stmt], what: str) -> int:
-        ifs = [x for x in sts if isinstance(x, ast.If) and _is(x.test, 'self.desc')]
-        if len(ifs) != 1 or ifs[0].orelse or len(ifs[0].body) != 1:
-            raise TranslateError(f'KVDef.export: `if self.desc: file.write(sep)` not found {what}')
-        w = ifs[0].body[0]
-        if not (isinstance(w, ast.Expr) and _is_call_method(w.value, 'write') and len(w.value.args) == 1):  # type: ignore[attr-defined]
-            raise TranslateError(f'KVDef.export: separator write not recognised {what}')
-        return _only_colons(w.value.args[0], 'KVDef.export separator ' + what)  # type: ignore[attr-defined]
-    colons_with = desc_sep(branch[0].body, 'after a default')
-    colons_without = desc_sep(branch[0].orelse, 'without a default')
-    # the description itself is written iff non-empty
-    if not any(isinstance(st, ast.If) and _is(st.test, 'self.desc') and len(st.body) == 1 and isinstance(st.body[0], ast.Expr)
-               and isinstance(st.body[0].value, ast.Call) and _is(st.body[0].value.func, '_write_longstring') for st in body):
-        raise TranslateError('KVDef.export: `if self.desc: _write_longstring(...)` not found')
+    colons_with, colons_without = _kv_default_desc_paths(kve, body, dvar)
     # EntityDef.export: when is the @resources block written
     res_ifs = [st for st in ast.walk(ente) if isinstance(st, ast.If) and any(
         isinstance(n, ast.Constant) and isinstance(n.value, str) and '@resources' in n.value for x in st.body for n in ast.walk(x))]
@@ -598,6 +923,50 @@ class _Skeleton:
     def touches_file(self, node: ast.AST) -> bool:
         return any(isinstance(n, ast.Name) and n.id in (self.file, self.dic) for n in ast.walk(node))
 
+    @staticmethod
+    def items(evs: list[str]) -> list[tuple[str, ...]]:
+        """Split a list of events into its top-level items (single events and whole `if`/`loop` blocks)."""
+        out: list[tuple[str, ...]] = []
+        cur: list[str] = []
+        depth = 0
+        for e in evs:
+            cur.append(e)
+            if e == '}else{':
+                continue
+            if e.endswith('{'):
+                depth += 1
+            elif e == '}':
+                depth -= 1
+            if depth == 0:
+                out.append(tuple(cur))
+                cur = []
+        return out + ([tuple(cur)] if cur else [])
+
+    @classmethod
+    def branches(cls, test: str, body: list[str], orelse: list[str]) -> list[str]:
+        """Events of a two-way choice in normal form: what both branches do first / last is done before / after the choice (the
+        conditions never read the file, and which VALUE is written is not part of the skeleton), a branch without events is left
+        out, a choice without events disappears.  `if c: w(a); t() else: w(b)` and `w(a if c else b); if c: t()` are the same."""
+        if not any(e != 'return' for e in body + orelse):
+            return []
+        b, o = cls.items(body), cls.items(orelse)
+        pre: list[tuple[str, ...]] = []
+        while b and o and b[0] == o[0] and b[0] != ('return',):
+            pre.append(b.pop(0))
+            o.pop(0)
+        post: list[tuple[str, ...]] = []
+        while b and o and b[-1] == o[-1] and b[-1] != ('return',):
+            post.insert(0, b.pop())
+            o.pop()
+        flat = lambda xs: [e for it in xs for e in it]   # noqa: E731
+        mid: list[str] = []
+        if b or o:
+            if not b:       # only the else branch does something: keep the shape `if(c){}else{..}` explicit
+                mid = [f'if({test}){{', '}else{'] + flat(o) + ['}']
+            else:
+                mid = [f'if({test}){{'] + flat(b) + (['}else{'] + flat(o) if o else []) + ['}']
+        return flat(pre) + mid + flat(post)
+
     # -- one primitive expression
     def prim_write(self, call: ast.Call) -> str:
         """file.write(ARG)"""
@@ -613,6 +982,11 @@ class _Skeleton:
     def events_of_expr(self, node: ast.AST) -> list[str]:
         """Primitive events of one expression, in evaluation order (arguments before the call)."""
         ev: list[str] = []
+        if isinstance(node, ast.IfExp):
+            # `A if c else B` is the expression form of `if c: A else: B`: same events, same rendering
+            if self.events_of_expr(node.test):
+                raise TranslateError(f'{self.fn.name}: the file is read inside a condition (line {node.lineno})')
+            return self.branches(self.show(node.test), self.events_of_expr(node.body), self.events_of_expr(node.orelse))
         for ch in ast.iter_child_nodes(node):
             if not (isinstance(node, ast.Call) and ch is node.func):
                 ev += self.events_of_expr(ch)
@@ -673,14 +1047,20 @@ class _Skeleton:
                 out.append('return')
             return out
         if isinstance(st, ast.If):
+            if self.events_of_expr(st.test):
+                raise TranslateError(f'{self.fn.name}: the file is read inside a condition (line {st.lineno})')
+            test = self.show(st.test)
             self.depth += 1
+            n0 = self.nread
             body = [e for x in st.body for e in self.stmt(x)]
+            n1, self.nread = self.nread, n0
             orelse = [e for x in st.orelse for e in self.stmt(x)]
+            self.nread = max(n1, self.nread)          # the values read so far are counted along one path, not along both
             self.depth -= 1
-            if not any(e != 'return' for e in body + orelse):
-                return []
-            return [f'if({self.show(st.test)}){{'] + body + (['}else{'] + orelse if orelse else []) + ['}']
+            return self.branches(test, body, orelse)
         if isinstance(st, (ast.For, ast.While)):
+            if self.events_of_expr(st.iter if isinstance(st, ast.For) else st.test):
+                raise TranslateError(f'{self.fn.name}: the file is read in a loop header (line {st.lineno})')
             self.depth += 1
             body = [e for x in st.body for e in self.stmt(x)]
             self.depth -= 1
@@ -809,15 +1189,274 @@ def _lazy_db(edb: dict[str, ast.FunctionDef]) -> dict:
     gf = edb['get_fgd']
     found = False
     for n in ast.walk(gf):
-        if isinstance(n, ast.For) and _is(n.iter, 'enumerate(self.unparsed)') and isinstance(n.target, ast.Tuple) \
-                and isinstance(n.target.elts[0], ast.Name):
+        if not isinstance(n, ast.For) or n.orelse:
+            continue
+        # every block index: `for i, .. in enumerate(self.unparsed)` or `for i in range(len(self.unparsed))`
+        if _is(n.iter, 'enumerate(self.unparsed)') and isinstance(n.target, ast.Tuple) and isinstance(n.target.elts[0], ast.Name):
             i = n.target.elts[0].id
-            if any(_is(c, f'self._parse_block({i})') for c in ast.walk(n) if isinstance(c, ast.Call)):
+        elif (_is(n.iter, 'range(len(self.unparsed))') or _is(n.iter, 'range(0, len(self.unparsed))')) and isinstance(n.target, ast.Name):
+            i = n.target.id
+        else:
+            continue
+        # the call is made for every index, or skipped only for blocks without data (what _parse_block itself tests first)
+        for st in n.body:
+            data_names = set([e.id for e in ast.walk(n.target) if isinstance(e, ast.Name)][-1:]) - {i}   # the last name of `i, (classes, data)`
+            guard_ok = isinstance(st, ast.If) and not st.orelse and (
+                (isinstance(st.test, ast.Name) and st.test.id in data_names) or _is(st.test, f'self.unparsed[{i}][1]'))
+            calls = st.body if guard_ok else [st]      # type: ignore[attr-defined]
+            if len(calls) == 1 and _is(calls[0], f'self._parse_block({i})') and not any(
+                    isinstance(x, (ast.Break, ast.Return)) for x in ast.walk(n)):
                 found = True
     if not found:
         raise TranslateError('get_fgd: `for i, ... in enumerate(self.unparsed): ... self._parse_block(i)` not recognised')
     return dict(via_get_ent=via_get_ent, mark_before_resolve=mark[0] < loops[1], mark_after_decode=mark[0] > loops[0],
                 fgd_applies_bases=any(_is_call_method(n, 'apply_bases') for n in ast.walk(gf)))
+
+
+# ------------------------------------------------------------------------------------------ several databases
+def _single_assignments(fn: ast.FunctionDef) -> dict[str, ast.AST]:
+    """Locals of fn that are bound exactly once, by a plain `name = value` / `name: T = value`: name -> value."""
+    stores: dict[str, int] = {}
+    for n in ast.walk(fn):
+        if isinstance(n, ast.Name) and isinstance(n.ctx, (ast.Store, ast.Del)):
+            stores[n.id] = stores.get(n.id, 0) + 1
+    for a in list(fn.args.args) + list(fn.args.kwonlyargs) + list(fn.args.posonlyargs):
+        stores[a.arg] = stores.get(a.arg, 0) + 1
+    env: dict[str, ast.AST] = {}
+    for n in ast.walk(fn):
+        if isinstance(n, ast.Assign) and len(n.targets) == 1 and isinstance(n.targets[0], ast.Name) and stores.get(n.targets[0].id) == 1:
+            env[n.targets[0].id] = n.value
+        elif isinstance(n, ast.AnnAssign) and isinstance(n.target, ast.Name) and n.value is not None and stores.get(n.target.id) == 1:
+            env[n.target.id] = n.value
+    return env
+
+
+def _deref(node: ast.AST, env: dict[str, ast.AST], skip: frozenset = frozenset()) -> ast.AST:
+    """node with every load of a single-assignment local replaced by the value it was bound to (recursively)."""
+    import copy
+
+    class R(ast.NodeTransformer):
+        def visit_Name(self, n: ast.Name) -> ast.AST:   # noqa: N802
+            if isinstance(n.ctx, ast.Load) and n.id in env and n.id not in skip:
+                return _deref(env[n.id], env, skip | {n.id})
+            return n
+    return R().visit(copy.deepcopy(node))
+
+
+def _norm_membership(test: ast.AST) -> tuple[str, ast.AST, ast.AST] | None:
+    """`k in d`, `k in d.keys()`, `not k in d`, `k not in d`, `not (k not in d)` -> ('in' | 'notin', k, d)."""
+    neg = False
+    while isinstance(test, ast.UnaryOp) and isinstance(test.op, ast.Not):
+        neg, test = not neg, test.operand
+    if not (isinstance(test, ast.Compare) and len(test.ops) == 1 and isinstance(test.ops[0], (ast.In, ast.NotIn))):
+        return None
+    if isinstance(test.ops[0], ast.NotIn):
+        neg = not neg
+    d = test.comparators[0]
+    if _is_call_method(d, 'keys') and not d.args and not d.keywords:  # type: ignore[attr-defined]
+        d = d.func.value  # type: ignore[attr-defined]
+    return ('notin' if neg else 'in', test.left, d)
+
+
+def _same(a: ast.AST, b: ast.AST) -> bool:
+    return ast.dump(a) == ast.dump(b)
+
+
+def _iter_direction(it: ast.AST, what: str) -> tuple[ast.AST, bool]:
+    """The iterable of a `for` over the list of databases: (list expression, forward?)."""
+    if isinstance(it, ast.Call) and _is(it.func, 'reversed') and len(it.args) == 1 and not it.keywords:
+        inner, fwd = _iter_direction(it.args[0], what)
+        return inner, not fwd
+    if isinstance(it, ast.Subscript) and isinstance(it.slice, ast.Slice):
+        sl = it.slice
+        if sl.lower is None and sl.upper is None and sl.step is not None and _int_expr(sl.step, what) == -1:
+            inner, fwd = _iter_direction(it.value, what)
+            return inner, not fwd
+        if sl.lower is None and sl.upper is None and (sl.step is None or _int_expr(sl.step, what) == 1):
+            return _iter_direction(it.value, what)
+        raise TranslateError(f'{what}: slice of the database list not recognised: {ast.unparse(it)}')
+    if isinstance(it, ast.Call) and isinstance(it.func, ast.Name) and it.func.id in ('list', 'tuple', 'iter') and len(it.args) == 1 and not it.keywords:
+        return _iter_direction(it.args[0], what)
+    return it, True
+
+
+def _is_deepcopy(node: ast.AST) -> ast.AST | None:
+    if isinstance(node, ast.Call) and (_is(node.func, 'deepcopy') or _is(node.func, 'copy.deepcopy')) and len(node.args) == 1 and not node.keywords:
+        return node.args[0]
+    return None
+
+
+def _multi_db(tree: ast.Module) -> dict:
+    """How the LIST of engine databases is used (the model is SM/LazyDbMulti.v):
+      * EntityDef.engine_def: a loop over `_load_engine_db()` that returns `dbase.get_ent(classname)` (deep-copied) of the first
+        database that does not raise KeyError, KeyError after the loop  -> first_hit (False when the loop runs backwards);
+      * FGD.engine_dbase: a loop over `_load_engine_db()` that merges `dbase.get_fgd().entities` into the `entities` of a fresh FGD;
+        what happens to a class name that is already present decides: kept (`if k not in d: d[k] = v`, `if k in d: continue`,
+        `d.setdefault(k, v)`) or overwritten (`d[k] = v`, `d.update(..)`, `d |= ..`); a loop that runs backwards swaps the two.
+        An optional shortcut for a single database (`if len(databases) == 1: return deepcopy(databases[0].get_fgd())`) is accepted;
+      * add_engine_database: where the new database is put (insert(0, ..) = front / append = back) — information."""
+    # ---- EntityDef.engine_def
+    ed_raw = _method(tree, 'EntityDef', 'engine_def')
+    ed = _normalise(ed_raw, tree)
+    args = [a.arg for a in ed.args.args]
+    if len(args) != 2:
+        raise TranslateError(f'EntityDef.engine_def signature changed: {args}')
+    cn = args[1]
+    env = _single_assignments(ed)
+    body = [st for st in _body(ed) if not (isinstance(st, (ast.Assign, ast.AnnAssign)) and isinstance(
+        st.targets[0] if isinstance(st, ast.Assign) else st.target, ast.Name) and (
+        st.targets[0] if isinstance(st, ast.Assign) else st.target).id in env)]   # type: ignore[union-attr]
+    if not (len(body) == 2 and isinstance(body[0], ast.For) and not body[0].orelse and isinstance(body[0].target, ast.Name)
+            and isinstance(body[1], ast.Raise) and body[1].exc is not None and (_is(body[1].exc, f'KeyError({cn})') or _is(body[1].exc, 'KeyError'))):
+        raise TranslateError('EntityDef.engine_def: `for dbase in <databases>: ...` followed by `raise KeyError(classname)` not recognised')
+    loop = body[0]
+    lst, fwd = _iter_direction(_deref(loop.iter, env), 'EntityDef.engine_def')
+    if not _is(lst, '_load_engine_db()'):
+        raise TranslateError('EntityDef.engine_def: the loop does not run over _load_engine_db(): ' + ast.unparse(lst))
+    dv = loop.target.id  # type: ignore[attr-defined]
+    lb = loop.body
+    ok = False
+    if lb and isinstance(lb[0], ast.Try) and not lb[0].finalbody and len(lb[0].handlers) == 1:
+        tr = lb[0]
+        h = tr.handlers[0]
+        quiet = all(isinstance(x, (ast.Pass, ast.Continue)) for x in h.body)
+        # statements after the try belong to the no-exception path only when the handler leaves the iteration
+        if lb[1:] and not (h.body and isinstance(h.body[-1], ast.Continue)):
+            quiet = False
+        sts = list(tr.body) + list(tr.orelse) + list(lb[1:])
+        # `return deepcopy(dbase.get_ent(c))`, possibly through a local: `ent = dbase.get_ent(c)` ... `return deepcopy(ent)`
+        env2 = _single_assignments(ed)
+        rets = [x for x in sts if isinstance(x, ast.Return)]
+        others = [x for x in sts if not isinstance(x, ast.Return) and not (
+            isinstance(x, ast.Assign) and len(x.targets) == 1 and isinstance(x.targets[0], ast.Name) and x.targets[0].id in env2)]
+        if (h.type is not None and _is(h.type, 'KeyError') and quiet and len(rets) == 1 and not others and rets[0].value is not None):
+            val = _deref(rets[0].value, env2)
+            inner = _is_deepcopy(val)
+            if inner is not None and _is(inner, f'{dv}.get_ent({cn})'):
+                ok = True
+    if not ok and len(lb) == 1 and isinstance(lb[0], ast.If) and not lb[0].orelse:
+        # the membership test instead of the exception: `if classname.casefold() in dbase.get_classnames(): return deepcopy(dbase.get_ent(classname))`
+        # (get_ent raises KeyError exactly for names that are not keys of ent_map; the model does not distinguish the two)
+        m = _norm_membership(_deref(lb[0].test, _single_assignments(ed)))
+        env2 = _single_assignments(ed)
+        sts = [x for x in lb[0].body if not (isinstance(x, ast.Assign) and len(x.targets) == 1 and isinstance(x.targets[0], ast.Name)
+                                             and x.targets[0].id in env2)]
+        if (m and m[0] == 'in' and _is(m[1], f'{cn}.casefold()') and (_is(m[2], f'{dv}.get_classnames()') or _is(m[2], f'{dv}.ent_map'))
+                and len(sts) == 1 and isinstance(sts[0], ast.Return) and sts[0].value is not None):
+            inner = _is_deepcopy(_deref(sts[0].value, env2))
+            ok = inner is not None and _is(inner, f'{dv}.get_ent({cn})')
+    if not ok:
+        raise TranslateError('EntityDef.engine_def: loop body is not `try: return deepcopy(dbase.get_ent(classname)) except KeyError: pass`: '
+                             + ast.unparse(loop)[:200])
+    # ---- FGD.engine_dbase
+    eb_raw = _method(tree, 'FGD', 'engine_dbase')
+    eb = _normalise(eb_raw, tree)
+    env = _single_assignments(eb)
+
+    def is_local_def(st: ast.stmt) -> bool:
+        if isinstance(st, ast.Assign) and len(st.targets) == 1 and isinstance(st.targets[0], ast.Name):
+            return st.targets[0].id in env
+        return isinstance(st, ast.AnnAssign) and isinstance(st.target, ast.Name) and st.target.id in env
+    body = [st for st in _body(eb) if not is_local_def(st)]
+    shortcut = False
+    if body and isinstance(body[0], ast.If):
+        t = _deref(body[0].test, env)
+        sc = body[0]
+        if not ((_is(t, 'len(_load_engine_db()) == 1') or _is(t, '1 == len(_load_engine_db())')) and not sc.orelse and len(sc.body) == 1
+                and isinstance(sc.body[0], ast.Return) and sc.body[0].value is not None):
+            raise TranslateError('FGD.engine_dbase: the leading `if` is not the single-database shortcut: ' + ast.unparse(sc)[:160])
+        inner = _is_deepcopy(_deref(sc.body[0].value, env))
+        if inner is None or not (_is(inner, '_load_engine_db()[0].get_fgd()') or _is(inner, '_load_engine_db()[-1].get_fgd()')):
+            raise TranslateError('FGD.engine_dbase: the single-database shortcut does not return deepcopy(databases[0].get_fgd())')
+        shortcut = True
+        body = body[1:]
+    loops = [st for st in body if isinstance(st, ast.For)]
+    if len(loops) != 1 or loops[0].orelse or not isinstance(loops[0].target, ast.Name):
+        raise TranslateError(f'FGD.engine_dbase: expected one loop over the databases, found {len(loops)}')
+    loop = loops[0]
+    lst, fwd_all = _iter_direction(_deref(loop.iter, env), 'FGD.engine_dbase')
+    if not _is(lst, '_load_engine_db()'):
+        raise TranslateError('FGD.engine_dbase: the loop does not run over _load_engine_db(): ' + ast.unparse(lst))
+    dv = loop.target.id
+    rest = [st for st in body if st is not loop]
+    applies_bases = False
+    ret = None
+    for st in rest:
+        if isinstance(st, ast.Expr) and _is_call_method(st.value, 'apply_bases') and not st.value.args:  # type: ignore[attr-defined]
+            applies_bases = True
+        elif isinstance(st, ast.Return) and st.value is not None:
+            ret = st.value
+        else:
+            raise TranslateError('FGD.engine_dbase: statement not recognised: ' + ast.unparse(st)[:120])
+    if ret is None or body[-1] is not [st for st in rest if isinstance(st, ast.Return)][-1]:
+        raise TranslateError('FGD.engine_dbase: does not end with a return')
+    # the merged FGD: a local bound once to FGD() / cls()
+    tgt_names = [k for k, v in env.items() if _is(v, 'FGD()') or _is(v, 'cls()')]
+    if len(tgt_names) != 1:
+        raise TranslateError('FGD.engine_dbase: the fresh FGD that receives the entities was not found')
+    tname = tgt_names[0]
+    env_m = {k: v for k, v in env.items() if k != tname}     # the merged FGD stays a name
+    rv = _is_deepcopy(ret)
+    if not ((rv is not None and _is(rv, tname)) or _is(ret, tname)):
+        raise TranslateError('FGD.engine_dbase: does not return the merged FGD: ' + ast.unparse(ret))
+    t_ents = ast.parse(f'{tname}.entities', mode='eval').body
+    src_ents = ast.parse(f'{dv}.get_fgd().entities', mode='eval').body
+    lbody = [st for st in loop.body if not is_local_def(st)]
+
+    def classify_items(sts: list[ast.stmt], k: ast.AST, v: ast.AST) -> str:
+        """Body of `for k, v in src.entities.items()`."""
+        store = ast.parse(f'{tname}.entities[{ast.unparse(k)}] = {ast.unparse(v)}').body[0]
+        if len(sts) == 1 and _same(sts[0], store):
+            return 'last'
+        if len(sts) == 1 and isinstance(sts[0], ast.If) and not sts[0].orelse and len(sts[0].body) == 1 and _same(sts[0].body[0], store):
+            m = _norm_membership(_deref(sts[0].test, env_m))
+            if m and m[0] == 'notin' and _same(m[1], k) and _same(m[2], t_ents):
+                return 'first'
+        if (len(sts) == 2 and isinstance(sts[0], ast.If) and not sts[0].orelse and len(sts[0].body) == 1
+                and isinstance(sts[0].body[0], ast.Continue) and _same(sts[1], store)):
+            m = _norm_membership(_deref(sts[0].test, env_m))
+            if m and m[0] == 'in' and _same(m[1], k) and _same(m[2], t_ents):
+                return 'first'
+        if len(sts) == 1 and isinstance(sts[0], ast.Expr) and _same(sts[0].value, ast.parse(
+                f'{tname}.entities.setdefault({ast.unparse(k)}, {ast.unparse(v)})', mode='eval').body):
+            return 'first'
+        raise TranslateError('FGD.engine_dbase: the merge of one (classname, entity) item is not recognised: '
+                             + ' ; '.join(ast.unparse(x)[:100] for x in sts))
+    mode = None
+    if len(lbody) == 1 and isinstance(lbody[0], ast.For) and not lbody[0].orelse:
+        inner_loop = lbody[0]
+        it = _deref(inner_loop.iter, env_m)
+        if (_is_call_method(it, 'items') and not it.args and _same(it.func.value, src_ents)  # type: ignore[attr-defined]
+                and isinstance(inner_loop.target, ast.Tuple) and len(inner_loop.target.elts) == 2
+                and all(isinstance(e, ast.Name) for e in inner_loop.target.elts)):
+            k, v = inner_loop.target.elts
+            mode = classify_items([st for st in inner_loop.body if not is_local_def(st)],
+                                  ast.Name(id=k.id, ctx=ast.Load()), ast.Name(id=v.id, ctx=ast.Load()))  # type: ignore[attr-defined]
+    elif len(lbody) == 1 and isinstance(lbody[0], ast.Expr) and _is_call_method(lbody[0].value, 'update'):
+        c = _deref(lbody[0].value, env_m)
+        if _same(c.func.value, t_ents) and len(c.args) == 1 and not c.keywords and _same(c.args[0], src_ents):  # type: ignore[attr-defined]
+            mode = 'last'
+    elif len(lbody) == 1 and isinstance(lbody[0], ast.AugAssign) and isinstance(lbody[0].op, ast.BitOr):
+        if ast.unparse(lbody[0].target) == f'{tname}.entities' and _same(_deref(lbody[0].value, env_m), src_ents):
+            mode = 'last'
+    if mode is None:
+        raise TranslateError('FGD.engine_dbase: the body of the loop over the databases is not a recognised merge: '
+                             + ' ; '.join(ast.unparse(x)[:120] for x in lbody))
+    effective_first = (mode == 'first') == fwd_all
+    # ---- add_engine_database (information)
+    ad = _fn(tree, 'add_engine_database')
+    where = None
+    for n in ast.walk(ad):
+        if _is_call_method(n, 'insert') and len(n.args) == 2:  # type: ignore[attr-defined]
+            try:
+                where = 'front' if _int_expr(n.args[0], 'insert position') == 0 else 'other'  # type: ignore[attr-defined]
+            except TranslateError:
+                where = 'other'
+        elif _is_call_method(n, 'append'):
+            where = 'back'
+    return dict(first_hit=fwd, merge=mode, merge_loop_forward=fwd_all, effective_first=effective_first, single_shortcut=shortcut,
+                applies_bases=applies_bases, added_database_goes=where,
+                digests={'engine_def': ast_digest(ed_raw), 'engine_dbase': ast_digest(eb_raw), 'add_engine_database': ast_digest(ad)})
 
 
 # ------------------------------------------------------------------------------------------ emit
@@ -847,13 +1486,14 @@ def translate() -> tuple[str, dict]:
     tw = _text_writers(fgd_tree)
     fe = _fgd_escape(fgd_tree)
     db = _engine_db()
+    md = _multi_db(fgd_tree)
     for op in (wl['loop_op'], wl['nl_op']):
         if op not in OPS:
             raise TranslateError(f'comparison operator {op} not supported')
     ef = dict(db['ef_members'])
     lines = [
         '(* GENERATED by translate/c16_fgd.py from srctools/fgd.py, _engine_db.py, tokenizer.py, const.py. Do not edit. *)',
-        'From Coq Require Import List NArith String.', 'From SV Require Import Fmt.LongString Fmt.FgdLine.',
+        'From Coq Require Import List NArith String.', 'From SV Require Import Fmt.LongString Fmt.FgdLine SM.LazyDbMulti.',
         'Import ListNotations.', 'Open Scope string_scope.',
         'Inductive cmp_op := OpGt | OpGe | OpLt | OpLe | OpEq | OpNe.',
         '(* tokenizer.ESCAPES as (symbol, character); characters escape_text() never escapes *)',
@@ -896,6 +1536,10 @@ def translate() -> tuple[str, dict]:
         '(* the block is marked as decoded before the bases loop *)',
         f'Definition lazy_via_get_ent : bool := {_b(db["lazy"]["via_get_ent"])}.',
         f'Definition lazy_mark_before_resolve : bool := {_b(db["lazy"]["mark_before_resolve"] and db["lazy"]["mark_after_decode"])}.',
+        '(* FGD.engine_dbase: a class name that is already present is kept (FirstWins) or overwritten (LastWins), seen in the order of *)',
+        '(* the database list; EntityDef.engine_def returns the first database (in that order) that knows the class *)',
+        f'Definition engine_dbase_merge : merge_mode := {"FirstWins" if md["effective_first"] else "LastWins"}.',
+        f'Definition engine_def_returns_first_hit : bool := {_b(md["first_hit"])}.',
         '(* every bit operation with an integer literal in the (un)serialisers: (function, operator, literal) *)',
         'Definition bit_ops : list (string * string * N) := [' + '; '.join(
             f'("{fn}", "{op}", {lit}%N)' for fn, ops in db['bits'].items() for op, lit, _ in ops) + '].',
@@ -903,7 +1547,7 @@ def translate() -> tuple[str, dict]:
     ]
     if wl['notfound'] < 0:
         raise TranslateError('not-found comparison value is negative')
-    side = dict(write_longstring=wl, fgd_escape=fe, text_writers=tw, tokenizer=tok_side, engine_db={k: v for k, v in db.items() if k != 'bits'},
+    side = dict(multi_db=md, write_longstring=wl, fgd_escape=fe, text_writers=tw, tokenizer=tok_side, engine_db={k: v for k, v in db.items() if k != 'bits'},
                 bit_ops=db['bits'])
     return '\n'.join(lines), side
 
